@@ -345,3 +345,5 @@ c04_oracle!(oracle_min128_64_10, oracle_sequence::<64, 10, 0, 128>());
 c04_oracle!(oracle_min128_cut_then_fresh_70_70, oracle_sequence::<70, 70, 0, 128>());
 c04_oracle!(oracle_min128_forced_then_fresh_256_70, oracle_sequence::<256, 70, 0, 128>());
 c04_oracle!(oracle_min16_cut_then_fresh_8_8_8, oracle_sequence::<8, 8, 8, 16>());
+c04_oracle!(oracle_min128_forced_then_1, oracle_sequence::<256, 1, 0, 128>());
+c04_oracle!(oracle_min128_cut_then_1, oracle_sequence::<70, 1, 0, 128>());
